@@ -7,19 +7,26 @@ use blsful::*;
 use serde::{Deserialize, Serialize};
 use std::marker::PhantomData;
 
+/// how the secret key travels: directly, or wrapped in the curve tagged `SecretKeyEnum`
+#[derive(Copy, Clone, Debug, PartialEq, Eq, Hash, Serialize, Deserialize)]
+pub enum SkCodec {
+    Plain(Codec),
+    Enum(Codec),
+}
+
 #[derive(Clone, Debug, PartialEq, Eq, Hash, Serialize, Deserialize)]
 pub struct St {
     k: usize,
     m: usize,
     s: Scheme,
-    sk_c: Codec,
+    sk_c: SkCodec,
     pk_c: Codec,
     sig_c: Codec,
 }
 
 #[derive(Clone, Debug, PartialEq)]
 pub enum Act {
-    Sk(Codec),
+    Sk(SkCodec),
     Pk(Codec),
     Sig(Codec),
 }
@@ -52,6 +59,26 @@ impl<C: Suite> M01<C> {
     }
 }
 
+impl<C: Suite> M01<C> {
+    /// alphabet message, or one of the structurally special messages built from the key's public key bytes
+    fn message(&self, k: usize, m: usize) -> Vec<u8> {
+        let n = self.msgs.msgs.len();
+        if m < n {
+            return self.msgs.msgs[m].clone();
+        }
+        let pk = Vec::<u8>::from(&sk_from_be::<C>(&self.keys.be[k]).unwrap().public_key());
+        special_message(&pk, m - n)
+    }
+    fn message_name(&self, m: usize) -> String {
+        let n = self.msgs.msgs.len();
+        if m < n {
+            self.msgs.names[m].clone()
+        } else {
+            SPECIAL_MESSAGES[m - n].to_string()
+        }
+    }
+}
+
 impl<C: Suite> Model for M01<C> {
     type State = St;
     type Action = Act;
@@ -61,13 +88,13 @@ impl<C: Suite> Model for M01<C> {
     fn init(&self) -> Vec<St> {
         let mut v = vec![];
         for k in 0..self.keys.be.len() {
-            for m in 0..self.msgs.msgs.len() {
+            for m in 0..self.msgs.msgs.len() + SPECIAL_MESSAGES.len() {
                 for s in SCHEMES {
                     v.push(St {
                         k,
                         m,
                         s,
-                        sk_c: Codec::None,
+                        sk_c: SkCodec::Plain(Codec::None),
                         pk_c: Codec::None,
                         sig_c: Codec::None,
                     });
@@ -81,9 +108,10 @@ impl<C: Suite> Model for M01<C> {
             return vec![];
         }
         let mut a = vec![];
-        if s.sk_c == Codec::None {
+        if s.sk_c == SkCodec::Plain(Codec::None) {
             for c in [Codec::Bytes, Codec::Bare, Codec::Json, Codec::Be, Codec::Le] {
-                a.push(Act::Sk(c));
+                a.push(Act::Sk(SkCodec::Plain(c)));
+                a.push(Act::Sk(SkCodec::Enum(c)));
             }
         }
         if s.pk_c == Codec::None {
@@ -113,7 +141,7 @@ impl<C: Suite> Model for M01<C> {
             C::G,
             s.s.name(),
             self.keys.names[s.k],
-            self.msgs.names[s.m],
+            self.message_name(s.m),
             s.sk_c,
             s.pk_c,
             s.sig_c
@@ -125,9 +153,9 @@ impl<C: Suite> Model for M01<C> {
     fn check(&self, st: &St, o: &mut Obs) {
         let g = C::G;
         let sn = st.s.name();
-        let msg = &self.msgs.msgs[st.m];
         let kb = &self.keys.be[st.k];
-        let devs = (st.sk_c != Codec::None) as u8 + (st.pk_c != Codec::None) as u8 + (st.sig_c != Codec::None) as u8;
+        let msg = &self.message(st.k, st.m);
+        let devs = (st.sk_c != SkCodec::Plain(Codec::None)) as u8 + (st.pk_c != Codec::None) as u8 + (st.sig_c != Codec::None) as u8;
         o.nontrivial = true;
         let sk0 = match guard(|| sk_from_be::<C>(kb)) {
             Ok(Some(sk)) => sk,
@@ -141,7 +169,10 @@ impl<C: Suite> Model for M01<C> {
             }
         };
         o.calls(1);
-        let sk = match guard(|| transport_sk::<C>(&sk0, st.sk_c)) {
+        let sk = match guard(|| match st.sk_c {
+            SkCodec::Plain(c) => transport_sk::<C>(&sk0, c),
+            SkCodec::Enum(c) => transport_sk_enum::<C>(&sk0, c),
+        }) {
             Ok(Ok(sk)) => sk,
             Ok(Err(e)) => {
                 o.expect(&format!("C01:transport-sk:{}:{:?}", g, st.sk_c), false, "Ok", &e);
